@@ -330,6 +330,18 @@ def scale_case(case):
         res.append(i)
         steps += 1
     check('after all joined')
+    if case.get('quiet'):
+        # nobody looks at the listings while the victims leave (all of them, in order) and come back (in order): one
+        # read before, one read after
+        for v in case['victims']:
+            env.remove_agent(f'g{v}')
+            res.remove(v)
+        for v in case['victims']:
+            env.add_agent(agents[v], *pos)
+            res.append(v)
+        steps += 2 * len(case['victims'])
+        check(f'after {case["victims"]} left and re-joined with no read in between')
+        return steps, (kind, n, tuple(case['victims']), 'quiet')
     for v in case['victims']:
         if case.get('complete_at') == ('leave', v):
             m.complete()
@@ -351,6 +363,8 @@ def scale_cases(tier):
                 for comp in (None, ('join', 2), ('leave', victims[0])):
                     yield {'leg': 'population', 'kind': kind, 'n': n, 'victims': victims,
                            'complete_at': comp}
+            for victims in ([0], [0, n - 1], [1, n - 1], [n // 2, 0, n - 1], [n - 1, 0]):
+                yield {'leg': 'population', 'kind': kind, 'n': n, 'victims': victims, 'complete_at': None, 'quiet': True}
 
 
 class World:
